@@ -235,6 +235,25 @@ fn check(ctx: &Ctx, c: &Case) -> PResult {
         gadget::cross_check(&g, &g.wit, c.seed, NAMES[comp as usize])?;
         ctx.label("cross-checked with the real prover");
     }
+    // model-free adversary: the returned witness decided by the prover (another
+    // value), inputs kept, internal wires re-solved row by row
+    if has_ret && honest_sat && q_out_nonzero(comp, &q) && matches!(comp, 1 | 2 | 3 | 9 | 10 | 11) {
+        let ret_w = g.handle_wit(returned_h);
+        let mut pins: Vec<(usize, F)> = (2..6).map(|hh| (g.handle_wit(hh), g.wit[g.handle_wit(hh)])).collect();
+        for forged in [ret_v + F::one(), c.perturb.1 .0, F::zero()] {
+            if forged == ret_v || pins.iter().any(|p| p.0 == ret_w) {
+                continue;
+            }
+            pins.push((ret_w, forged));
+            ctx.add_evals(1);
+            ctx.label("adversary: propagation from a forged returned witness");
+            let hit = gadget::propagation_attack(&g, &pins, c.seed, &format!("{}: returned witness forced to {}", NAMES[comp as usize], fe_short(&forged)), |_| true)?;
+            pins.pop();
+            if let Some(msg) = hit {
+                return Err(Fail::new("returned-witness-not-unique", msg));
+            }
+        }
+    }
     // perturb one touched witness on the unchanged layout
     let (pk, pv) = (c.perturb.0 % 5, c.perturb.1 .0);
     let mut vals2 = vals;
@@ -307,5 +326,5 @@ pub fn props() -> Vec<(Box<dyn PropDyn>, u32, u32)> {
 }
 
 pub fn describe(ctx: &Ctx) {
-    ctx.rule("cases: component in {append_gate, append_evaluated_output, gate_add, gate_mul, assert_equal, assert_equal_constant, append_constant, append_public, component_boolean, component_select, component_select_one, component_select_zero} x coefficient tuples over {0, +-1, +-2, random} (q_o zero and invertible) x wirings (distinct, ZERO/ONE, all wires shared) x with/without (zero/non-zero) public input x witness values with boundary classes; constant term either solving the relation or arbitrary; then one touched witness (input or returned) set to another value on the unchanged layout. Oracle: the documented relation evaluated in the harness <=> reference-evaluator satisfiability; returned witnesses equal the documented value and cannot be changed alone. non-trivial = every case; distinct by case");
+    ctx.rule("cases: component in {append_gate, append_evaluated_output, gate_add, gate_mul, assert_equal, assert_equal_constant, append_constant, append_public, component_boolean, component_select, component_select_one, component_select_zero} x coefficient tuples over {0, +-1, +-2, random} (q_o zero and invertible) x wirings (distinct, ZERO/ONE, all wires shared) x with/without (zero/non-zero) public input x witness values with boundary classes; constant term either solving the relation or arbitrary; then one touched witness (input or returned) set to another value on the unchanged layout; and the returned witness forced to another value with every internal wire re-solved row by row (propagation adversary). Oracle: the documented relation evaluated in the harness <=> reference-evaluator satisfiability; returned witnesses equal the documented value and cannot be changed alone. non-trivial = every case; distinct by case");
 }
